@@ -31,6 +31,9 @@ DIRECTED = [
     "stel fs = [functie(a) { a + 1 }, functie(a) { a * 2 }]; stel f0 = fs[0]; stel f1 = fs[1]; f0(f1(5))",
     "functie id(x) { x } id(id)(3)",
     "functie f(a, b, c, d) { stel e = a + b; stel g = c + d; stel h = e * g; stel i = h - a; [e, g, h, i] } f(1, 2, 3, 4)",
+    "functie kies(c) { als c { 10 } anders { antwoord 20 } } [kies(ja), kies(nee)]", "functie kies(c) { als c { antwoord 10 } anders { 20 } } [kies(ja), kies(nee)]",
+    "functie kies(c) { als c { 10 } anders als c { 11 } anders { antwoord 20 } } print(\"{}\", kies(ja)); kies(nee)", "functie k(c) { zolang c { antwoord 1 } } [k(ja), k(nee)]",
+    "functie k(c) { als c { 10 } anders { antwoord 20 }; 30 } [k(ja), k(nee)]", "functie k(c) { { als c { 10 } anders { antwoord 20 } } } [k(ja), k(nee)]",
     "functie z() { } z()", "functie z() { stel a = 1 } z()", "functie z() { antwoord } 1",
 ]
 DEEP = [
